@@ -181,3 +181,411 @@ Proof.
   destruct (retry_bounded fates jit t0 Ht) as (_ & B & _).
   subst rep u. rewrite E in *. simpl. auto.
 Qed.
+
+(* ===================================================================== *)
+(* (i) Demux, repaired code                                              *)
+(* ===================================================================== *)
+Definition keys {V} (m : list (N * V)) : list N := map fst m.
+Definition npend (w : N) (m : list (N * (N * N))) : nat :=
+  length (filter (fun e => snd (snd e) =? w) m).
+Definition nsub (w : N) (evs : list dev) : nat :=
+  length (filter (fun p => fst p =? w) (submissions evs)).
+
+Lemma map_find_in : forall V (m : list (N * V)) k v, map_find k m = Some v -> In (k, v) m.
+Proof.
+  induction m as [|[k' v'] r IH]; intros k v H; [discriminate|]. simpl in H.
+  destruct (k' =? k) eqn:E.
+  - apply N.eqb_eq in E. inversion H; subst. left. reflexivity.
+  - right. apply IH. exact H.
+Qed.
+
+Lemma map_find_none : forall V (m : list (N * V)) k, map_find k m = None -> ~ In k (keys m).
+Proof.
+  induction m as [|[k' v'] r IH]; intros k H; [intros []|]. simpl in H.
+  destruct (k' =? k) eqn:E; [discriminate|]. apply N.eqb_neq in E.
+  simpl. intros [A|A]; [contradiction|]. exact (IH k H A).
+Qed.
+
+Lemma map_mem_false : forall V (m : list (N * V)) k, map_mem k m = false -> ~ In k (keys m).
+Proof.
+  intros V m k H. unfold map_mem in H. destruct (map_find k m) eqn:E; [discriminate|].
+  apply map_find_none. exact E.
+Qed.
+
+Lemma probe_fresh : forall V f id (m : list (N * V)) wire,
+  probe f id m = Some wire -> map_mem wire m = false.
+Proof.
+  induction f as [|f IH]; intros id m wire H; [discriminate|]. simpl in H.
+  destruct (map_mem id m) eqn:E.
+  - eapply IH. exact H.
+  - inversion H; subst. exact E.
+Qed.
+
+Lemma map_remove_notin : forall V (m : list (N * V)) k, ~ In k (keys m) -> map_remove k m = m.
+Proof.
+  induction m as [|[k' v'] r IH]; intros k H; [reflexivity|]. simpl in *.
+  destruct (k' =? k) eqn:E.
+  - apply N.eqb_eq in E. exfalso. apply H. left. exact E.
+  - f_equal. apply IH. intros A. apply H. right. exact A.
+Qed.
+
+Lemma map_remove_subset : forall V (m : list (N * V)) k x, In x (map_remove k m) -> In x m.
+Proof.
+  induction m as [|[k' v'] r IH]; intros k x H; [exact H|]. simpl in H.
+  destruct (k' =? k).
+  - right. eapply IH. exact H.
+  - destruct H as [H|H]; [left; exact H | right; eapply IH; exact H].
+Qed.
+
+Lemma NoDup_keys_remove : forall V (m : list (N * V)) k, NoDup (keys m) -> NoDup (keys (map_remove k m)).
+Proof.
+  induction m as [|[k' v'] r IH]; intros k H; [constructor|]. simpl in *.
+  inversion H as [|? ? Hn Hr]; subst.
+  destruct (k' =? k); [apply IH; exact Hr|].
+  simpl. constructor; [|apply IH; exact Hr].
+  intros A. apply Hn. unfold keys in *. apply in_map_iff in A. destruct A as [x [Hx1 Hx2]].
+  apply in_map_iff. exists x. split; [exact Hx1|]. eapply map_remove_subset. exact Hx2.
+Qed.
+
+Lemma deliveries_app : forall w a b, deliveries w (a ++ b) = deliveries w a ++ deliveries w b.
+Proof.
+  induction a as [|[w' r|w' wire] a IH]; intros b; simpl; [reflexivity| |apply IH].
+  destruct (w' =? w); simpl; rewrite IH; reflexivity.
+Qed.
+
+Lemma deliveries_teardown : forall w m, length (deliveries w (teardown m)) = npend w m.
+Proof.
+  induction m as [|[k [orig w']] r IH]; [reflexivity|]. unfold npend in *. simpl.
+  destruct (w' =? w); simpl; rewrite IH; reflexivity.
+Qed.
+
+Lemma deliveries_in : forall w r o, In r (deliveries w o) <-> In (Deliver w r) o.
+Proof.
+  induction o as [|[w' r'|w' wire] o IH]; simpl; [tauto| |].
+  - destruct (w' =? w) eqn:E.
+    + apply N.eqb_eq in E. subst. simpl. split.
+      * intros [A|A]; [left; subst; reflexivity | right; apply IH; exact A].
+      * intros [A|A]; [left; inversion A; reflexivity | right; apply IH; exact A].
+    + apply N.eqb_neq in E. split.
+      * intros A. right. apply IH. exact A.
+      * intros [A|A]; [inversion A; contradiction | apply IH; exact A].
+  - split; [intros A; right; apply IH; exact A | intros [A|A]; [discriminate | apply IH; exact A]].
+Qed.
+
+Lemma npend_remove : forall m k orig w0 w, NoDup (keys m) -> map_find k m = Some (orig, w0) ->
+  (npend w (map_remove k m) + (if (w0 =? w)%N then 1 else 0))%nat = npend w m.
+Proof.
+  induction m as [|[k' [o' w']] r IH]; intros k orig w0 w HN HF; [discriminate|].
+  simpl in HN. inversion HN as [|? ? Hn Hr]; subst. simpl in HF. simpl map_remove.
+  destruct (k' =? k) eqn:E.
+  - apply N.eqb_eq in E. subst. inversion HF; subst.
+    rewrite map_remove_notin by exact Hn. unfold npend. simpl.
+    destruct (w0 =? w); simpl; lia.
+  - specialize (IH k orig w0 w Hr HF). unfold npend in *. simpl.
+    destruct (w' =? w); simpl; lia.
+Qed.
+
+Definition dinv (s : dstate) : Prop :=
+  NoDup (keys (d_map s)) /\ (d_conn s = false -> d_map s = []).
+
+Lemma dinv_init : dinv d_init.
+Proof. split; [constructor | reflexivity]. Qed.
+
+Ltac dinv_same HC :=
+  split; [assumption | let A := fresh "A" in intros A; first [ congruence | apply HC; congruence | apply HC; reflexivity ]].
+
+Definition sub1 (w : N) (e : dev) : nat :=
+  match e with Submit w' _ _ => if w' =? w then 1%nat else 0%nat | _ => 0%nat end.
+
+Lemma demux_step_acct : forall s e s' o w, dinv s -> demux_step s e = (s', o) ->
+  dinv s' /\ (length (deliveries w o) + npend w (d_map s'))%nat = (npend w (d_map s) + sub1 w e)%nat.
+Proof.
+  intros s e s' o w [HN HC] H. destruct e as [w0 id i| wire |]; unfold demux_step in H.
+  - destruct (negb (d_conn s) && io_eqb i IoConnFail).
+    { inversion H; subst. split; [split; assumption|]. simpl. destruct (w0 =? w); simpl; lia. }
+    destruct (65536 <=? lenN (d_map s)).
+    { inversion H; subst. split; [split; [exact HN | intros A; discriminate A]|].
+      simpl. destruct (w0 =? w); simpl; lia. }
+    destruct (probe (S (length (d_map s))) id (d_map s)) as [wire|] eqn:EP.
+    2:{ inversion H; subst. split; [split; [exact HN | intros A; discriminate A]|].
+        simpl. destruct (w0 =? w); simpl; lia. }
+    apply probe_fresh in EP. apply map_mem_false in EP.
+    destruct (io_eqb i IoWriteFail); inversion H; subst.
+    + split; [split; [constructor | reflexivity]|].
+      change (Deliver w0 RErrTcp :: teardown (d_map s)) with (teardown ((wire, (id, w0)) :: d_map s)).
+      rewrite deliveries_teardown.
+      unfold npend. simpl. destruct (w0 =? w); simpl; lia.
+    + split; [split; [simpl; constructor; assumption | intros A; discriminate A]|].
+      unfold npend. simpl. destruct (w0 =? w); simpl; lia.
+  - destruct (d_conn s) eqn:EC.
+    + destruct (map_find wire (d_map s)) as [[orig w1]|] eqn:EF; inversion H; subst.
+      * split; [split; [simpl; apply NoDup_keys_remove; exact HN | intros A; discriminate A]|].
+        pose proof (npend_remove (d_map s) wire orig w1 w HN EF) as P. simpl.
+        destruct (w1 =? w); simpl; simpl in P; lia.
+      * split; [dinv_same HC|]. simpl. lia.
+    + inversion H; subst. split; [dinv_same HC|]. simpl. lia.
+  - destruct (d_conn s) eqn:EC; inversion H; subst.
+    + split; [split; [constructor | reflexivity]|]. rewrite deliveries_teardown. unfold npend. simpl. lia.
+    + split; [dinv_same HC|]. simpl. lia.
+Qed.
+
+Lemma nsub_cons : forall w e r, nsub w (e :: r) = (sub1 w e + nsub w r)%nat.
+Proof.
+  intros w e r. unfold nsub. destruct e as [w0 id i| |]; simpl; try reflexivity.
+  destruct (w0 =? w); reflexivity.
+Qed.
+
+Lemma demux_run_acct : forall evs s s' o w, dinv s -> demux_run s evs = (s', o) ->
+  dinv s' /\ (length (deliveries w o) + npend w (d_map s'))%nat = (npend w (d_map s) + nsub w evs)%nat.
+Proof.
+  induction evs as [|e r IH]; intros s s' o w HI H.
+  - simpl in H. inversion H; subst. split; [exact HI|]. unfold nsub. simpl. lia.
+  - simpl in H. destruct (demux_step s e) as [s1 o1] eqn:E1.
+    destruct (demux_run s1 r) as [s2 o2] eqn:E2. inversion H; subst.
+    destruct (demux_step_acct s e s1 o1 w HI E1) as [HI1 A1].
+    destruct (IH s1 s' o2 w HI1 E2) as [HI2 A2].
+    split; [exact HI2|]. rewrite deliveries_app, app_length, nsub_cons. lia.
+Qed.
+
+Lemma nsub_nodup : forall evs w, NoDup (map fst (submissions evs)) ->
+  In w (map fst (submissions evs)) -> nsub w evs = 1%nat.
+Proof.
+  intros evs w. unfold nsub. generalize (submissions evs) as l.
+  induction l as [|[w' id'] l IH]; intros HN HI; [destruct HI|].
+  simpl in *. inversion HN as [|? ? Hn Hr]; subst.
+  destruct (w' =? w) eqn:E.
+  - apply N.eqb_eq in E. subst. simpl. f_equal.
+    assert (Z : forall l', ~ In w (map fst l') -> filter (fun p : N * N => fst p =? w) l' = []).
+    { induction l' as [|[a b] l' IH']; intros Hni; [reflexivity|]. simpl in *.
+      destruct (a =? w) eqn:Ea.
+      - apply N.eqb_eq in Ea. exfalso. apply Hni. left. exact Ea.
+      - apply IH'. intros A. apply Hni. right. exact A. }
+    rewrite Z by exact Hn. reflexivity.
+  - apply N.eqb_neq in E. destruct HI as [HI|HI]; [contradiction|]. apply IH; assumption.
+Qed.
+
+Lemma nsub_notin : forall evs w, ~ In w (map fst (submissions evs)) -> nsub w evs = 0%nat.
+Proof.
+  intros evs w. unfold nsub. generalize (submissions evs) as l.
+  induction l as [|[a b] l IH]; intros Hni; [reflexivity|]. simpl in *.
+  destruct (a =? w) eqn:Ea.
+  - apply N.eqb_eq in Ea. exfalso. apply Hni. left. exact Ea.
+  - apply IH. intros A. apply Hni. right. exact A.
+Qed.
+
+Lemma pending_npend : forall w m, pending w m = false <-> npend w m = 0%nat.
+Proof.
+  induction m as [|[k [o w']] r IH]; [split; reflexivity|].
+  unfold pending, npend in *. simpl. destruct (w' =? w); simpl; [split; discriminate | exact IH].
+Qed.
+
+(* the ids and the wire: a reply handed to w carries the id w's query was submitted with,
+   and arrived with the id w's query was sent under *)
+Definition jinv (subs : list (N * N)) (outs : list dout) (m : list (N * (N * N))) : Prop :=
+  forall wire orig w, In (wire, (orig, w)) m -> In (w, orig) subs /\ In (Sent w wire) outs.
+
+Lemma jinv_mono : forall subs outs m subs' outs', jinv subs outs m ->
+  (forall x, In x subs -> In x subs') -> (forall x, In x outs -> In x outs') -> jinv subs' outs' m.
+Proof. intros subs outs m subs' outs' J A B wire orig w H. destruct (J _ _ _ H). split; auto. Qed.
+
+Lemma teardown_no_reply : forall m w orig wire, ~ In (Deliver w (RReply orig wire)) (teardown m).
+Proof.
+  induction m as [|e m IH]; intros w orig wire A; [destruct A|].
+  simpl in A. destruct A as [A|A]; [discriminate A | exact (IH _ _ _ A)].
+Qed.
+
+Lemma demux_step_own : forall s e s' o subs outs, jinv subs outs (d_map s) -> demux_step s e = (s', o) ->
+  jinv (subs ++ submissions [e]) (outs ++ o) (d_map s') /\
+  forall w orig wire, In (Deliver w (RReply orig wire)) o ->
+    In (w, orig) subs /\ In (Sent w wire) outs.
+Proof.
+  intros s e s' o subs outs J H.
+  assert (JM : forall x y, jinv (subs ++ x) (outs ++ y) (d_map s)).
+  { intros x y. eapply jinv_mono; [exact J | intros; apply in_or_app; left; assumption
+                                             | intros; apply in_or_app; left; assumption]. }
+  assert (JE : forall x y, jinv x y []) by (intros x y a b c []).
+  destruct e as [w0 id i| wire |]; unfold demux_step in H.
+  - destruct (negb (d_conn s) && io_eqb i IoConnFail).
+    { inversion H; subst. split; [apply JM|]. intros w orig wire [A|[]]. discriminate A. }
+    destruct (65536 <=? lenN (d_map s)).
+    { inversion H; subst. split; [apply JM|]. intros w orig wire [A|[]]. discriminate A. }
+    destruct (probe (S (length (d_map s))) id (d_map s)) as [wire|] eqn:EP.
+    2:{ inversion H; subst. split; [apply JM|]. intros w orig wire [A|[]]. discriminate A. }
+    destruct (io_eqb i IoWriteFail); inversion H; subst.
+    + split; [apply JE|]. intros w orig wire' A. exfalso.
+      apply (teardown_no_reply ((wire, (id, w0)) :: d_map s) w orig wire'). exact A.
+    + split.
+      * intros wire' orig w [A|A].
+        -- inversion A; subst. split; apply in_or_app; right; simpl; auto.
+        -- apply (JM (submissions [Submit w0 id i]) [Sent w0 wire]). exact A.
+      * intros w orig wire' [A|[]]. discriminate A.
+  - destruct (d_conn s).
+    + destruct (map_find wire (d_map s)) as [[orig w1]|] eqn:EF; inversion H; subst.
+      * split.
+        -- intros wire' orig' w A. simpl in A. apply map_remove_subset in A.
+           apply (JM (submissions [Arrive wire]) [Deliver w1 (RReply orig wire)]). exact A.
+        -- intros w orig' wire' [A|[]]. inversion A; subst. apply J. apply map_find_in. exact EF.
+      * split; [apply JM|]. intros w orig wire' [].
+    + inversion H; subst. split; [apply JM|]. intros w orig wire' [].
+  - destruct (d_conn s); inversion H; subst.
+    + split; [apply JE|]. intros w orig wire' A. exfalso.
+      apply (teardown_no_reply (d_map s) w orig wire'). exact A.
+    + split; [apply JM|]. intros w orig wire' [].
+Qed.
+
+Lemma submissions_app : forall a b, submissions (a ++ b) = submissions a ++ submissions b.
+Proof.
+  induction a as [|e a IH]; intros b; [reflexivity|]. destruct e; simpl; rewrite IH; reflexivity.
+Qed.
+
+Lemma demux_run_own : forall evs s s' o subs outs, jinv subs outs (d_map s) -> demux_run s evs = (s', o) ->
+  jinv (subs ++ submissions evs) (outs ++ o) (d_map s') /\
+  forall w orig wire, In (Deliver w (RReply orig wire)) o ->
+    In (w, orig) (subs ++ submissions evs) /\ In (Sent w wire) (outs ++ o).
+Proof.
+  induction evs as [|e r IH]; intros s s' o subs outs J H.
+  - simpl in H. inversion H; subst. simpl. rewrite !app_nil_r. split; [exact J|]. intros w orig wire [].
+  - simpl in H. destruct (demux_step s e) as [s1 o1] eqn:E1.
+    destruct (demux_run s1 r) as [s2 o2] eqn:E2. inversion H; subst.
+    destruct (demux_step_own s e s1 o1 subs outs J E1) as [J1 D1].
+    destruct (IH s1 s' o2 _ _ J1 E2) as [J2 D2].
+    change (e :: r) with ([e] ++ r). rewrite submissions_app.
+    rewrite <- ?app_assoc in J2, D2. rewrite <- ?app_assoc.
+    split; [exact J2|].
+    intros w orig wire A. apply in_app_or in A. destruct A as [A|A].
+    + destruct (D1 _ _ _ A) as [X Y]. split; apply in_or_app; left; assumption.
+    + exact (D2 _ _ _ A).
+Qed.
+
+Lemma demux_run_app : forall a b s,
+  demux_run s (a ++ b) =
+  let '(s1, o1) := demux_run s a in let '(s2, o2) := demux_run s1 b in (s2, o1 ++ o2).
+Proof.
+  induction a as [|e a IH]; intros b s.
+  - simpl. destruct (demux_run s b). reflexivity.
+  - simpl. destruct (demux_step s e) as [s1 o1]. rewrite IH.
+    destruct (demux_run s1 a) as [s2 o2]. destruct (demux_run s2 b) as [s3 o3].
+    rewrite app_assoc. reflexivity.
+Qed.
+
+Lemma nodup_fst_inj : forall (l : list (N * N)) w a b,
+  NoDup (map fst l) -> In (w, a) l -> In (w, b) l -> a = b.
+Proof.
+  induction l as [|[w' c] l IH]; intros w a b HN HA HB; [destruct HA|].
+  simpl in HN. inversion HN as [|? ? Hn Hr]; subst.
+  destruct HA as [HA|HA]; destruct HB as [HB|HB].
+  - congruence.
+  - inversion HA; subst. exfalso. apply Hn. apply in_map_iff. exists (w, b). auto.
+  - inversion HB; subst. exfalso. apply Hn. apply in_map_iff. exists (w, a). auto.
+  - eapply IH; eassumption.
+Qed.
+
+Theorem demux_exactly_once : forall evs s o,
+  demux_run d_init evs = (s, o) ->
+  NoDup (map fst (submissions evs)) ->
+  (forall w id, In (w, id) (submissions evs) ->
+     (pending w (d_map s) = false -> exists r, deliveries w o = [r]) /\
+     (pending w (d_map s) = true -> deliveries w o = []) /\
+     (forall orig wire, In (RReply orig wire) (deliveries w o) -> orig = id /\ In (Sent w wire) o)) /\
+  (forall w, ~ In w (map fst (submissions evs)) -> deliveries w o = [] /\ pending w (d_map s) = false).
+Proof.
+  intros evs s o H HN. split.
+  - intros w id HI.
+    destruct (demux_run_acct evs d_init s o w dinv_init H) as [_ A].
+    assert (HS : nsub w evs = 1%nat).
+    { apply nsub_nodup; [exact HN|]. apply in_map_iff. exists (w, id). auto. }
+    rewrite HS in A. unfold npend at 2 in A. simpl in A.
+    split; [|split].
+    + intros P. apply pending_npend in P. rewrite P in A.
+      destruct (deliveries w o) as [|r [|r' l]]; simpl in A; try lia. exists r. reflexivity.
+    + intros P. destruct (npend w (d_map s)) eqn:E.
+      * apply pending_npend in E. congruence.
+      * destruct (deliveries w o); [reflexivity | simpl in A; lia].
+    + intros orig wire HD. apply deliveries_in in HD.
+      assert (J0 : jinv [] [] (d_map d_init)) by (intros a b c []).
+      destruct (demux_run_own evs d_init s o [] [] J0 H) as [_ D].
+      destruct (D _ _ _ HD) as [X Y]. simpl in X, Y. split; [|exact Y].
+      eapply nodup_fst_inj; eassumption.
+  - intros w HNI.
+    destruct (demux_run_acct evs d_init s o w dinv_init H) as [_ A].
+    rewrite (nsub_notin evs w HNI) in A. unfold npend at 2 in A. simpl in A.
+    split.
+    + destruct (deliveries w o); [reflexivity | simpl in A; lia].
+    + apply pending_npend. lia.
+Qed.
+
+(* whatever is still waiting is released by the next connection event *)
+Theorem demux_conn_error_releases_all : forall evs s o,
+  demux_run d_init (evs ++ [ConnError]) = (s, o) -> d_map s = [].
+Proof.
+  intros evs s o H. rewrite demux_run_app in H.
+  destruct (demux_run d_init evs) as [s1 o1] eqn:E1.
+  destruct (demux_run_acct evs d_init s1 o1 0 dinv_init E1) as [[_ HC] _].
+  simpl in H. destruct (d_conn s1) eqn:EC; inversion H; subst; [reflexivity|]. apply HC. reflexivity.
+Qed.
+
+(* ===================================================================== *)
+(* (i) Demux, the code as found: a collision kills the task for good     *)
+(* ===================================================================== *)
+Lemma odead_absorbing : forall evs s, o_dead s = true ->
+  fst (odemux_run s evs) = s /\
+  forall x, In x (snd (odemux_run s evs)) -> exists w, x = Deliver w RErrInternal.
+Proof.
+  induction evs as [|e r IH]; intros s HD; [split; [reflexivity | intros x []]|].
+  simpl. assert (E : exists o1, odemux_step s e = (s, o1) /\ forall x, In x o1 -> exists w, x = Deliver w RErrInternal).
+  { destruct e as [w id i| wire |]; unfold odemux_step; rewrite HD.
+    - exists [Deliver w RErrInternal]. split; [reflexivity|]. intros x [A|[]]. exists w. auto.
+    - exists []. split; [reflexivity | intros x []].
+    - exists []. split; [reflexivity | intros x []]. }
+  destruct E as [o1 [E1 E2]]. rewrite E1.
+  destruct (IH s HD) as [I1 I2]. destruct (odemux_run s r) as [s2 o2]. simpl in *.
+  split; [exact I1|]. intros x A. apply in_app_or in A. destruct A as [A|A]; auto.
+Qed.
+
+Lemma odemux_run_app : forall a b s,
+  odemux_run s (a ++ b) =
+  let '(s1, o1) := odemux_run s a in let '(s2, o2) := odemux_run s1 b in (s2, o1 ++ o2).
+Proof.
+  induction a as [|e a IH]; intros b s.
+  - simpl. destruct (odemux_run s b). reflexivity.
+  - simpl. destruct (odemux_step s e) as [s1 o1]. rewrite IH.
+    destruct (odemux_run s1 a) as [s2 o2]. destruct (odemux_run s2 b) as [s3 o3].
+    rewrite app_assoc. reflexivity.
+Qed.
+
+Theorem demux_collision_refuted :
+  exists evs,
+    (* two waiters, no I/O failure, no connection event, nobody answered ... *)
+    evs = [Submit 0 7 IoOk; Submit 1 7 IoOk] /\
+    NoDup (map fst (submissions evs)) /\
+    deliveries 0 (snd (odemux_run o_init evs)) = [RErrInternal] /\
+    deliveries 1 (snd (odemux_run o_init evs)) = [RErrInternal] /\
+    (* ... and every later query through this task fails, whatever id it carries *)
+    forall more w id i,
+      In (Deliver w RErrInternal) (snd (odemux_run o_init (evs ++ more ++ [Submit w id i]))) /\
+      forall r, In (Deliver w r) (snd (odemux_run (fst (odemux_run o_init evs)) (more ++ [Submit w id i]))) ->
+                r = RErrInternal.
+Proof.
+  exists [Submit 0 7 IoOk; Submit 1 7 IoOk]. split; [reflexivity|].
+  split; [simpl; repeat constructor; simpl; intuition discriminate|].
+  split; [reflexivity|]. split; [reflexivity|].
+  intros more w id i.
+  set (dead := {| o_map := []; o_conn := false; o_dead := true |}).
+  assert (E0 : odemux_run o_init [Submit 0 7 IoOk; Submit 1 7 IoOk] =
+               (dead, [Sent 0 7; Deliver 1 RErrInternal; Deliver 0 RErrInternal])) by reflexivity.
+  assert (HD : o_dead dead = true) by reflexivity.
+  split.
+  - rewrite odemux_run_app. rewrite E0. rewrite odemux_run_app.
+    destruct (odead_absorbing more dead HD) as [M1 _].
+    destruct (odemux_run dead more) as [s1 o1]. simpl in M1. subst s1.
+    simpl. right. right. right. apply in_or_app. right. left. reflexivity.
+  - rewrite E0. simpl fst. intros r A.
+    destruct (odead_absorbing (more ++ [Submit w id i]) dead HD) as [_ M2].
+    destruct (M2 _ A) as [w' Hw]. inversion Hw. reflexivity.
+Qed.
+
+(* the repaired machine on the same events: both are sent, with different wire ids *)
+Lemma demux_collision_repaired :
+  snd (demux_run d_init [Submit 0 7 IoOk; Submit 1 7 IoOk; Arrive 8; Arrive 7]) =
+  [Sent 0 7; Sent 1 8; Deliver 1 (RReply 7 8); Deliver 0 (RReply 7 7)].
+Proof. reflexivity. Qed.
